@@ -17,6 +17,21 @@ EXPLANATION += "; also: get_serverid() returns option 54 untouched; option 54 is
 EXTRA_CONFIGS = ["dhcp"]
 
 
+def _inner_const(x):
+    """the constant inside `&MessageType(3)` / `MessageType(3)` / `3`"""
+    x = norm(x)
+    for _ in range(6):
+        if x[0] in ("ref", "deref"):
+            x = norm(x[1])
+        elif x[0] == "agg" and len(x[3]) == 1:
+            x = norm(x[3][0][1])
+        elif x[0] == "const" and isinstance(x[1], dict):
+            return x
+        else:
+            break
+    return x
+
+
 def _handlers(P, cg):
     hs = [fid for fid, sig in P.sigs.items()
           if sig["inputs"] and sig["inputs"][0].endswith("dhcp::pool::Pool") and sig["inputs"][0].startswith("&mut")
@@ -58,11 +73,32 @@ def run(ctx):
         # (get_messagetype(..) as Some).0.0
         if any(s[0] == "call" and str(s[1]).endswith("get_messagetype") for s in subterms(d)) and d[0] == "field":
             tsw = (bb, tm)
-    if tsw is None:
+    arm_edges, other_edges = {}, []
+    if tsw is not None:
+        bb, tm = tsw
+        for v, tgt in tm["targets"]:
+            arm_edges.setdefault(v, []).append((bb, tgt))
+        other_edges = [(bb, tm["otherwise"])]
+    else:
+        # the same table written as a chain of `message_type == DHCPxxx` tests
+        def m_eq(d):
+            return d[0] == "call" and str(d[1]).endswith("::eq") and len(d[2]) == 2 and \
+                any(any(y[0] == "call" and str(y[1]).endswith("get_messagetype") for y in subterms(norm(x))) for x in d[2]) and \
+                any(const_value(_inner_const(x)) is not None for x in d[2])
+        tests = []
+        for sbb, d, te, fe in bool_switches(P, disp, m_eq):
+            k = [const_value(_inner_const(x)) for x in d[2] if const_value(_inner_const(x)) is not None][0]
+            arm_edges.setdefault(k, []).extend(te)
+            tests.append((sbb, fe))
+        tblocks = {sbb for sbb, _ in tests}
+        for sbb, fe in tests:
+            for e in fe:
+                if not (tblocks & (cfg.reachable_from(e[1]) - {sbb})):
+                    other_edges.append(e)       # no further test can be reached: the message is of none of the dispatched types
+    if not arm_edges or not other_edges:
         ctx.bad("R1", "type-switch-not-found", ctx.where(disp), "cannot find the switch on the DHCP message type; cannot decide")
         return
-    bb, tm = tsw
-    vals = sorted(v for v, _ in tm["targets"])
+    vals = sorted(arm_edges)
     want = sorted(int(P.consts[c].get("bits", -1)) for c in ("erbium::dhcp::dhcppkt::DHCPDISCOVER", "erbium::dhcp::dhcppkt::DHCPREQUEST") if c in P.consts)
     ctx.check(vals == want == [1, 3], "R1", "dispatch-set=%s" % vals, ctx.where(disp, disp.span),
               "exactly the message types DISCOVER(1) and REQUEST(3) may be dispatched to handlers; the switch handles %s" % vals)
@@ -84,14 +120,14 @@ def run(ctx):
         if okp:
             state_calls += reified
     for b2, t2 in state_calls:
-        doms = [v for v, tgt in tm["targets"] if cfg.edge_dominates((bb, tgt), b2)]
+        doms = [v for v in arm_edges if any(cfg.edge_dominates(e, b2) for e in arm_edges[v])]
         ctx.check(len(doms) == 1, "R1", "state-changing-call-under-one-type-arm:%s" % callee_name(t2).split("::")[-1],
                   ctx.where(disp, t2["sp"]), "a call that can reach the lease writer must sit under exactly one message-type arm (arms: %s)" % doms)
         if len(doms) == 1:
             arm_callee[doms[0]] = callee_name(t2)
     ctx.floor("R1", "state-changing calls in the dispatcher", len(state_calls), 2)
     # None / other arms reach no state change and produce Err
-    bad_edges = [(bb, tm["otherwise"])]
+    bad_edges = list(other_edges)
     # the None edge of the Option discriminant
     for b0, t0 in disp.terms():
         if t0["k"] == "switch":
